@@ -40,7 +40,33 @@ fn ctok(text: &str, own_line: bool, depth: u16) -> PTok {
 fn insert_toggles(p: &Prog, t: &mut Tape) -> Prog {
     let n = p.toks.len();
     let mut ins: Vec<(usize, PTok)> = vec![]; // (before token index, token)
-    let regions = 1 + t.below(2);
+    // sandwich: a statement that starts in one region and ends in the next, with an enabled
+    // stretch in its middle (toggles written inline, so that they do not split the statement)
+    let sandwich = t.chance(1, 5);
+    if sandwich {
+        let starts: Vec<usize> = (0..n).filter(|i| p.toks[*i].line_start || *i == 0).collect();
+        let cands: Vec<(usize, usize)> = starts
+            .iter()
+            .enumerate()
+            .map(|(k, a)| (*a, starts.get(k + 1).copied().unwrap_or(n)))
+            .filter(|(a, e)| e - a >= 7)
+            .collect();
+        if !cands.is_empty() {
+            let (a, e) = cands[t.below(cands.len() as u32) as usize];
+            let on_at = a + 2 + t.below(((e - a) / 2 - 1) as u32) as usize;
+            let off_at = on_at + 2 + t.below((e - 1 - on_at - 2).max(1) as u32) as usize;
+            let off_at = off_at.min(e - 1);
+            let inline_on = *t.pick(&["{ pasfmt on }", "(* pasfmt on *)", "{pasfmt on}"]);
+            let inline_off = *t.pick(&["{ pasfmt off }", "(* pasfmt off *)", "{pasfmt off}"]);
+            ins.push((a, ctok(t.pick_str(OFF), true, p.toks[a].depth)));
+            ins.push((on_at, ctok(inline_on, false, p.toks[on_at].depth)));
+            ins.push((off_at, ctok(inline_off, false, p.toks[off_at].depth)));
+            if t.chance(2, 3) {
+                ins.push((e, ctok(t.pick_str(ON), true, p.toks.get(e).map_or(0, |x| x.depth))));
+            }
+        }
+    }
+    let regions = if sandwich && !ins.is_empty() { 0 } else { 1 + t.below(2) };
     let mut pos = 0usize;
     for _ in 0..regions {
         if pos >= n {
@@ -104,6 +130,9 @@ fn insert_toggles(p: &Prog, t: &mut Tape) -> Prog {
         k += 1;
     }
     out.tags.insert("toggles");
+    if sandwich {
+        out.tags.insert("toggle:sandwich");
+    }
     out
 }
 
